@@ -976,7 +976,7 @@ let run_c13 file =
             (* correspondence: the model of the code (mergo) against the code *)
             let model_diff = List.filter_map (fun (f, got) ->
                 let m = config_get b c.k_blocks f in
-                if got = m then None else Some (f, first_diff (implode f) got m)) c.k_gets in
+                if value_eqb got m then None else Some (f, first_diff (implode f) got m)) c.k_gets in
             let names = List.map (function OEffective f -> "effective-settings:" ^ implode f | OUnknownAccepted f -> "unknown-format-accepted:" ^ implode f) clauses in
             let names = names
                         @ List.map (fun f -> "get-depends-on-history:" ^ f) (List.sort_uniq compare !seq_bad)
